@@ -227,6 +227,14 @@ U_C08_Sel(zz) == {DeclP([C0 |-> Class(DefaultOpts, <<U1("k"), RefSelF("v", EF("k
                           C1 |-> SubOpt], {0, 1, 2}, 6, {0}),
                     DeclP([C0 |-> Class(DefaultOpts, Embedded("p", "C1", <<>>, SubExpr.fields) \o <<RefF("s", "C1"), U1("z")>>), C1 |-> SubExpr], {0, 1, 2}, 6, {0}),
                     DeclP([C0 |-> Class(DefaultOpts, <<RefF("s", "C1")>> \o Embedded("p", "C1", <<>>, SubExpr.fields)), C1 |-> SubExpr], {0, 1, 2}, 6, {0})}
+\* alternatives that differ ONLY in signedness / byte order (same width): what one parse selected must not colour the next,
+\* through one reference or through the elements of a sequence of packets
+SignAlts == <<[key |-> 0, alt |-> IntF("", 2, FALSE, "default")], [key |-> 1, alt |-> IntF("", 2, TRUE, "default")],
+              [key |-> 2, alt |-> IntF("", 2, TRUE, "little")], [key |-> 3, alt |-> IntF("", 2, FALSE, "little")]>>
+U_C08_Sign(zz) == {DeclP([C0 |-> Class(DefaultOpts, <<U1("k"), RefSelF("v", EF("k"), SignAlts, fm, IntV(0)), U1("z")>>)], {0, 1, 2, 255}, 4, {0}) :
+                      fm \in {"lambda", "chooses"}}
+              \cup {DeclP([C0 |-> Class(DefaultOpts, <<U1("n"), RepCountF("r", RefF("e", "C1"), SzField("n"), NoCond, 0)>>),
+                           C1 |-> Class(DefaultOpts, <<U1("k"), RefSelF("v", EF("k"), SubSeq(SignAlts, 1, 2), "lambda", IntV(0))>>)], {0, 1, 255}, 7, {0})}
 \* the controlling field is a DESCRIBED field (parsing reads what the bytes said, not what the descriptor computes)
 AutoLenOf(f, of) == WithDesc(f, [kind |-> "autolen", of |-> of])
 AutoE(f, e) == WithDesc(f, [kind |-> "auto", e |-> e])
@@ -249,7 +257,7 @@ U_C08_Emb(zz) == {DeclP([C0 |-> Class(DefaultOpts, <<U1("h")>> \o Embedded("p", 
                   DeclP([C0 |-> Class(DefaultOpts, <<U1("h"), RefF("s", "C1"), U1("t")>>),
                          C1 |-> Class(DefaultOpts, Embedded("p", "C2", <<>>, Sub1.fields) \o <<OptF("o", U1("e"), Lam(EF("x")))>>),
                          C2 |-> Sub1], {0, 1, 2}, 5, {0})}
-U_C08(zz) == U_C08_Count(0) \cup U_C08_Until(0) \cup U_C08_Opt(0) \cup U_C08_Nest(0) \cup U_C08_Shared(0) \cup U_C08_Desc(0) \cup U_C08_Emb(0)
+U_C08(zz) == U_C08_Sign(0) \cup U_C08_Count(0) \cup U_C08_Until(0) \cup U_C08_Opt(0) \cup U_C08_Nest(0) \cup U_C08_Shared(0) \cup U_C08_Desc(0) \cup U_C08_Emb(0)
              \cup U_C08_Sel(0)
 
 \* -------------------------------------------------------------------- C10
@@ -524,6 +532,7 @@ PickU(n) ==
       [] n = "U_C04_Lone" -> U_C04_Lone(0)
       [] n = "U_C01_Root" -> U_C01_Root(0)
       [] n = "U_C01_Reent" -> U_C01_Reent(0)
+      [] n = "U_C08_Sign" -> U_C08_Sign(0)
       [] n = "U_C08" -> U_C08(0)
       [] n = "U_C10_Flat" -> U_C10_Flat(0)
       [] n = "U_C10_Nest" -> U_C10_Nest(0)
